@@ -482,7 +482,42 @@ type Callbacks struct {
 	CmpCalls, HipCalls   int
 	FailCmpAt, FailHipAt int // 1-based; 0 = never
 	Jitter               func()
+	// Groups > 0: the hash input of every key is crafted so that, under the DEFAULT digester, all keys of
+	// one group share their first-level digest (CircleHash64f) for any seed, while the deeper BLAKE3
+	// digests differ: 32 bytes = pi1 (8, little endian) || key hash (8) || group (16).  CircleHash64f folds
+	// 16-byte chunks as mix64(a^pi1, b^state), so a chunk starting with pi1 zeroes the state.
+	Groups int
 }
+
+const circlePi1 = uint64(0x13198A2E03707344)
+
+// Msg is the hash input of v (no counting, no fault injection).
+func (c *Callbacks) Msg(v atree.Value, buf []byte) ([]byte, error) {
+	if c == nil || c.Groups <= 0 {
+		return hashInput(v, buf)
+	}
+	plain, err := hashInput(v, nil)
+	if err != nil {
+		return nil, err
+	}
+	h := uint64(1469598103934665603)
+	for _, b := range plain {
+		h ^= uint64(b)
+		h *= 1099511628211
+	}
+	h = mix64(h)
+	msg := make([]byte, 32)
+	binary.LittleEndian.PutUint64(msg[0:], circlePi1)
+	binary.LittleEndian.PutUint64(msg[8:], h)
+	g := byte(h%uint64(c.Groups)) + 1
+	for i := 16; i < 32; i++ {
+		msg[i] = g
+	}
+	return msg, nil
+}
+
+// PlainHIP is the hash-input provider without counting / injection (for verifiers and read-only checks).
+func (c *Callbacks) PlainHIP(v atree.Value, buf []byte) ([]byte, error) { return c.Msg(v, buf) }
 
 var ErrInjected = errors.New("verif: injected failure")
 
@@ -509,7 +544,7 @@ func (c *Callbacks) HashInput(v atree.Value, buf []byte) ([]byte, error) {
 			return nil, ErrInjected
 		}
 	}
-	return hashInput(v, buf)
+	return c.Msg(v, buf)
 }
 
 func compareValue(st atree.SlabStorage, v atree.Value, s atree.Storable) (bool, error) {
